@@ -83,6 +83,11 @@ def generate(rng, tier):
                        'out': h() if rng.random() < 0.3 else None})
             if rng.random() < 0.15:
                 op['dtype'] = rng.choice(['float64', 'complex128'])
+            # indices for `at` (first axis), with repeats more often than not
+            op['at_idx'] = [rng.randrange(0, 5) for _ in range(rng.randint(1, 4))]
+            if rng.random() < 0.5:
+                op['at_idx'].append(op['at_idx'][0])
+            op['at_val'] = rng.choice([2, 1, -1, 3])
         elif t == 'setitem':
             op.update({'h': h(), 'idx': rng.choice(['all', 'first', 'last',
                                                     'slice']),
@@ -442,7 +447,9 @@ class Run(object):
         r_in = [self.stores[s].handle(hk) for s, hk in ins]
         extra = []
         if m == 'at':
-            extra = [[0, len(m_in[0]) - 1], 2]
+            n0 = len(m_in[0])
+            idx = [i % n0 for i in op.get('at_idx', [0, n0 - 1])]
+            extra = [idx] if uf.nin == 1 else [idx, op.get('at_val', 2)]
         if m == 'reduceat':
             extra = [[0, max(0, m_in[0].shape[kw['axis']] - 1)]]
         m_out = r_out = None
